@@ -1116,6 +1116,20 @@ FORMS_REJECTED = {(e, f) for e in ("COSPricer.put", "COSPricer.call", "COSPricer
                                    "ExponentialOfLevyModel.cdf", "CFBlackScholes.forward") for f in ("list", "tuple")}
 FORMS_REJECTED.add(("COSPricer.price-call", "0-d-array"))
 
+# the orders in which a ladder of 9 strikes (increasing base ladder, indices 0..8, 4 = the spot) is handed to a vectorised entry
+ORDER_BASE = tuple(range(9))
+ORDERS = {
+    "increasing": ORDER_BASE,
+    "decreasing": ORDER_BASE[::-1],
+    "from-the-money-outwards": (4, 3, 5, 2, 6, 1, 7, 0, 8),
+    "shuffled": (5, 2, 8, 0, 6, 3, 1, 7, 4),  # a fixed permutation without fixed point of the sort
+    "repeated-strike": (4, 1, 4, 7, 1, 1),  # a strike given twice apart and twice in a row, not sorted
+    "two-decreasing": (6, 2),
+    "one-element": (6,),
+}
+ORDER_CONTAINERS = {"array": lambda x: x, "list": lambda x: [float(v) for v in x], "tuple": lambda x: tuple(float(v) for v in x)}
+ORDER_AS_SEQUENCE = ("shuffled", "repeated-strike", "decreasing")  # the orders also given as a list / a tuple
+
 
 def _check_forms(sh, case):
     """Every public entry point of the three pricers and the two model-level routes, asked
@@ -1292,6 +1306,49 @@ def _check_forms(sh, case):
             sh.count("form_outside_alphabet:keyword")  # parameter names are not part of the statement
             continue
         compare("forms", name, "differs-from-usual-form:keyword", got, run(name, conv(name, Kf), T), Kf)
+
+    # ------------------------------------------------------------------ E. strike vectors in every order
+    # a vectorised entry point answers strike by strike: the i-th value is the price at the i-th strike GIVEN, whatever the
+    # order of the vector (ladders are written decreasing, from the money outwards, in the order of a calibration set, with a
+    # strike quoted twice).  Reference: the same entry asked one strike at a time (scalar argument).
+    Ko = S0 * np.exp(np.linspace(-0.3 * hw, 0.3 * hw, len(ORDER_BASE)))
+    for name in entries:
+        xo = conv(name, Ko)
+        try:
+            el = np.array([float(run(name, float(v), T)[0]) for v in xo])
+        except Exception as e:  # noqa: BLE001
+            sh.violation(f"{PID}:order:{name}:scalar-call-raises-{type(e).__name__}:{icls}", f"{name} with a scalar raised {type(e).__name__}: {e}", ctx)
+            continue
+        for oname, perm in ORDERS.items():
+            perm = list(perm)
+            for cname, mkc in ORDER_CONTAINERS.items():
+                if cname != "array" and oname not in ORDER_AS_SEQUENCE:
+                    continue
+                mine = xo[perm].copy()
+                arg = mkc(mine)
+                fclass = f"{oname}:{cname}"
+                try:
+                    with warnings.catch_warnings(), np.errstate(all="ignore"):
+                        warnings.simplefilter("ignore")
+                        res = np.asarray(entries[name][0](arg, T), dtype=float)
+                except Exception as e:  # noqa: BLE001
+                    if (name, cname) in FORMS_REJECTED and isinstance(e, TypeError):
+                        sh.count(f"form_outside_alphabet:{cname}")
+                    else:
+                        sh.violation(f"{PID}:order:{name}:raises-{type(e).__name__}:{fclass}:{icls}",
+                                     f"{name} with the strikes {mine.tolist()} ({cname}) raised {type(e).__name__}: {e}", ctx)
+                    continue
+                sh.count("evaluations")
+                if not np.array_equal(np.asarray(arg, dtype=float), mine):
+                    sh.violation(f"{PID}:order:{name}:modifies-the-callers-array:{fclass}:{icls}",
+                                 f"{name} changed its strike argument from {mine.tolist()} to {np.asarray(arg, dtype=float).tolist()}", ctx)
+                    continue
+                if res.shape != (len(perm),):
+                    sh.violation(f"{PID}:order:{name}:result-not-of-the-callers-shape:{fclass}:{icls}",
+                                 f"{name} with {len(perm)} strikes ({cname}) returned an array of shape {res.shape}", ctx)
+                    continue
+                compare("order", name, f"vector-entry-differs-from-scalar-call-at-the-same-strike:{fclass}", res, el[perm], Ko[perm],
+                        {"order": oname, "container": cname, "strikes": Ko[perm].tolist()})
 
     # ------------------------------------------------------------------ C. the caller's arrays
     for name in entries:
